@@ -574,18 +574,56 @@ def _check_pair(a, b):
     """a, b: {"pgn", "payload" (hex), optional src/dst/prio/ts/prefs/claim}. Returns a witness dict or None."""
     from nmea2000.consts import PhysicalQuantities as PQ
 
-    def run(x, net=True):
+    def run(x, net=True, dump=False, debug=False):
+        import logging as _lg
+        import os as _os
+        import tempfile as _tf
         prefs = {getattr(PQ, k): v for k, v in (x.get("prefs") or {}).items()}
-        dec = new_decoder(build_network_map=net, preferred_units=prefs)
-        if x.get("claim"):
-            decode(dec, *CLAIM, src=x.get("src", 1))
-        by = bytes.fromhex(x["payload"])
-        return decode(dec, x["pgn"], int.from_bytes(by, "little"), len(by),
-                      **{k: x[k] for k in ("src", "dst", "prio", "ts") if k in x})
+        kw, path = {}, None
+        if dump:
+            fd, path = _tf.mkstemp(prefix="c17_dump_", suffix=".jsonl", dir="/tmp")
+            _os.close(fd)
+            _os.unlink(path)
+            kw["dump_to_file"] = path
+        lg = _lg.getLogger("nmea2000")
+        old_level, old_disable = lg.level, _lg.root.manager.disable
+        null = _lg.NullHandler()
+        if debug:      # the application has switched the library's logger to DEBUG (records go to a null handler)
+            _lg.disable(_lg.NOTSET)
+            lg.setLevel(_lg.DEBUG)
+            lg.addHandler(null)
+        try:
+            dec = new_decoder(build_network_map=net, preferred_units=prefs, **kw)
+            if x.get("claim"):
+                decode(dec, *CLAIM, src=x.get("src", 1))
+            by = bytes.fromhex(x["payload"])
+            r = decode(dec, x["pgn"], int.from_bytes(by, "little"), len(by),
+                       **{k: x[k] for k in ("src", "dst", "prio", "ts") if k in x})
+            if dump:
+                try:
+                    dec.close()
+                except Exception:  # noqa: BLE001
+                    pass
+            return r
+        finally:
+            if debug:
+                lg.removeHandler(null)
+                lg.setLevel(old_level)
+                _lg.disable(old_disable)
+            if path and _os.path.exists(path):
+                _os.unlink(path)
     ma, mb = run(a), run(b)
     if ma is None or mb is None or isinstance(ma, Exception) or isinstance(mb, Exception):
         return None
     base = {"kind": "pair", "a": a, "b": b}
+    # the hash of a message is the same whatever else the decoder is asked to do (dump what it returns) and however
+    # the application has configured logging
+    for how, kw2 in (("a decoder that also dumps to a file", {"dump": True}), ("the library's logger at DEBUG", {"debug": True})):
+        alt = run(a, **kw2)
+        if alt is None or isinstance(alt, Exception) or alt.hash != ma.hash:
+            return {**base, "key": "hash:depends-on-" + ("dumping" if "dump" in kw2 else "logging"),
+                    "what": f"{ma.id} payload {a['payload']}: hash {ma.hash} on a plain network-mapping decoder, "
+                            f"{getattr(alt, 'hash', alt)!r} with {how}"}
     if ma.hash is None or mb.hash is None:
         return {**base, "key": "hash:missing-with-network-map",
                 "what": f"PGN {a['pgn']}: no hash although build_network_map=True"}
